@@ -311,6 +311,19 @@ fn build_prog(t: &mut Tape) -> (Prog, Vec<&'static str>) {
                 push(&mut p, ";", Kind::Op, false, d0 + 1);
                 push(&mut p, "end", Kind::Keyword, true, d0);
             }
+            3 if t.chance(1, 3) => {
+                // the statement starts with the literal
+                push(&mut p, &lit.text, Kind::TextMulti, true, d0);
+                push(&mut p, ".", Kind::Op, false, d0);
+                push(&mut p, "Foo", Kind::Ident, false, d0);
+                push(&mut p, "(", Kind::Op, false, d0);
+                push(&mut p, "Aaa", Kind::Ident, false, d0);
+                if t.chance(1, 2) {
+                    push(&mut p, ",", Kind::Op, false, d0);
+                    push(&mut p, "Bbbbbb", Kind::Ident, false, d0);
+                }
+                push(&mut p, ")", Kind::Op, false, d0);
+            }
             10 | 13 => {
                 // for-in over a set of literals, and a while condition
                 push(&mut p, "for", Kind::Keyword, true, d0);
@@ -431,7 +444,7 @@ impl Prop for C12Prop {
         "C12"
     }
     fn rule(&self) -> String {
-        "Streams (proptest tapes): lits = generated multi-line literals (3/5/7/9/11/13/21 quotes; LF / CR / CRLF / mixed interior endings; closing-line indentation of spaces, tabs, mixed, U+3000, VT, FF; empty lines, strict-prefix lines, over-indented and whitespace-only lines, trailing blanks, ''' inside 5/7-quote literals; invalid variants with a mis-indented line or text before the closing quotes; ambiguous variants with a whitespace-only line that is not a prefix) placed as assignment right-hand side, call argument, method-call receiver, comparison operand, concatenation operand, constant, typed array constant, attribute argument, default parameter value, raise / case selector / case arm / for-in operand, and inside an anonymous routine, in generated layouts x generated configuration (both values of format_multiline_strings); mlprog = grammar-derived programs with valid literals. Oracle (own literal parser on the input token and the corresponding output token): valid literal and format_multiline_strings: value lines equal incl. trailing blanks, interior terminators are the configured ending, closing indentation == indentation of the opening quotes' line == prefix of every non-empty interior line; invalid literals and all literals under format_multiline_strings=false: byte-equal; ambiguous literals: untouched or regular lines keep their value. Non-trivial = the literal's bytes change; distinct by hash of (input, configuration)."
+        "Streams (proptest tapes): lits = generated multi-line literals (3/5/7/9/11/13/21 quotes; LF / CR / CRLF / mixed interior endings; closing-line indentation of spaces, tabs, mixed, U+3000, VT, FF; empty lines, strict-prefix lines, over-indented and whitespace-only lines, trailing blanks, ''' inside 5/7-quote literals; invalid variants with a mis-indented line or text before the closing quotes; ambiguous variants with a whitespace-only line that is not a prefix) placed as the first token of a statement, assignment right-hand side, call argument, method-call receiver, comparison operand, concatenation operand, constant, typed array constant, attribute argument, default parameter value, raise / case selector / case arm / for-in operand, and inside an anonymous routine, in generated layouts x generated configuration (both values of format_multiline_strings); mlprog = grammar-derived programs with valid literals. Oracle (own literal parser on the input token and the corresponding output token): valid literal and format_multiline_strings: value lines equal incl. trailing blanks, interior terminators are the configured ending, closing indentation == indentation of the opening quotes' line == prefix of every non-empty interior line; invalid literals and all literals under format_multiline_strings=false: byte-equal; ambiguous literals: untouched or regular lines keep their value. Non-trivial = the literal's bytes change; distinct by hash of (input, configuration)."
             .into()
     }
     fn assumptions(&self) -> Vec<String> {
